@@ -375,6 +375,9 @@ impl SvgElement {
         }
 
         let mut p = Position::from(self as &SvgElement);
+        // The x/y of a `use` element translate its target: the element's own box is
+        // the target's box moved by that much, wherever the target's box stands.
+        let mut use_origin = None;
         if self.name == "use" {
             if let Some(href) = self.get_href() {
                 let elref = href.parse()?;
@@ -383,15 +386,36 @@ impl SvgElement {
                     .ok_or_else(|| SvgdxError::ReferenceError(elref))?;
                 if let Some(sz) = ctx.get_element_size(el)? {
                     p.update_size(&sz);
-                    if el.name == "circle" || el.name == "ellipse" {
-                        // The referenced element is defined by its center,
-                        // but use elements are defined by top-left pos.
-                        p.translate(sz.0 / 4., sz.1 / 4.);
+                }
+                if let Some(bb) = ctx.get_element_bbox(el)? {
+                    let (ox, oy) = bb.locspec(LocSpec::TopLeft);
+                    if self.has_attr("x") {
+                        p.xmin = p.xmin.map(|x| x + ox);
+                    } else if p.xmax.is_none() && p.cx.is_none() && p.dx.is_some() {
+                        // only a delta: the target is moved from where it stands
+                        p.xmin = Some(ox);
+                    }
+                    if self.has_attr("y") {
+                        p.ymin = p.ymin.map(|y| y + oy);
+                    } else if p.ymax.is_none() && p.cy.is_none() && p.dy.is_some() {
+                        p.ymin = Some(oy);
+                    }
+                    if p.to_bbox().is_some() {
+                        // (otherwise no position attributes are written)
+                        use_origin = Some((ox, oy));
                     }
                 }
             }
         }
         p.set_position_attrs(self);
+        if let Some((ox, oy)) = use_origin {
+            // back from the position of the box to the translation of the target
+            for (key, origin) in [("x", ox), ("y", oy)] {
+                if let Some(v) = self.get_attr(key) {
+                    self.set_attr(key, &fstr(strp(&v)? - origin));
+                }
+            }
+        }
 
         Ok(())
     }
